@@ -6,7 +6,7 @@
                         + #live fidRefs whose parent is r + #live xattr fidRefs borrowing r,
     every counted reference points at an existing fidRef, one table entry per key. *)
 From Coq Require Import List Arith Bool ZArith.
-From P9V Require Import Refs.Model Refs.PathFS Refs.Cases Refs.RefProofs Refs.RefStep Refs.LifeProofs Refs.LifeStep Refs.ErrPaths Refs.Disconnect Refs.FenceProofs.
+From P9V Require Import Refs.Model Refs.PathFS Refs.Cases Refs.RefProofs Refs.RefStep Refs.LifeProofs Refs.LifeStep Refs.ErrPaths Refs.Disconnect Refs.Ordered Refs.FenceProofs.
 Import ListNotations.
 
 (** C05_inv: for every history of requests from the initial state and every backend, the reference-count
@@ -83,7 +83,8 @@ Print Assumptions C05_stop_empties_table.
     of the live fidRefs are well founded.  [ranked] is a hypothesis, not proved: it is genuinely false for a
     backend that lets a directory be renamed below itself (violating assumption B2: then two live fidRefs
     become each other's ancestors, keep each other alive after the last fid is gone, and their Files leak).
-    It follows from [ordered] (parent id < own id), which holds by construction in rename-free histories.
+    It follows from [ordered] (parent id < own id), which is PROVED for rename-free histories
+    (C05_disconnect_rename_free below).
     Deriving it for all histories from B2 needs [tree_inv] (proved, Refs/TreeStep.v), [tree_closed] and
     "a detached node is never re-attached" (both not proved); see coq/Refs/HANDOVER.md. *)
 Theorem C05_disconnect : forall B bstep ops (b : B) cs,
@@ -94,6 +95,20 @@ Theorem C05_disconnect : forall B bstep ops (b : B) cs,
   (s_panic B s = false -> ranked B s -> forall h, h < s_nexth B s -> close_count h (s_log B s) = 1).
 Proof. exact disconnect_closes_all. Qed.
 Print Assumptions C05_disconnect.
+
+(** C05_disconnect WITHOUT hypothesis on the parent links, for every backend, for every history that
+    contains no Trename / Trenameat (they may fail or succeed elsewhere - they just must not occur): fr_parent
+    is written only when a fidRef is created (parent = an existing, hence older, fidRef) and by renameChildTo's
+    callback, so parent ids stay smaller than child ids ([Ordered.ordered_all], Refs/Ordered.v). *)
+Theorem C05_disconnect_rename_free : forall B bstep ops (b : B) cs,
+  Forall no_rename ops ->
+  let s0 := snd (run B bstep ops (init_state B b)) in
+  let s := snd (run B bstep (map OStop cs) s0) in
+  (forall k, In k (fkeys B s0) -> In (fst k) cs) ->
+  s_fids B s = [] /\
+  (s_panic B s = false -> forall h, h < s_nexth B s -> close_count h (s_log B s) = 1).
+Proof. exact disconnect_rename_free. Qed.
+Print Assumptions C05_disconnect_rename_free.
 
 Theorem C05_ordered_ranked : forall B bstep ops (b : B),
   let s := snd (run B bstep ops (init_state B b)) in ordered B s -> ranked B s.
